@@ -10,6 +10,7 @@ import (
 	"os"
 	"path/filepath"
 	"runtime/debug"
+	"sort"
 	"strings"
 	"time"
 
@@ -212,6 +213,7 @@ func (a resultsAbs) coq(t *tb, r *rec) string {
 }
 
 type valsAbs struct {
+	hash   []byte // CometBFT ValidatorSet.Hash() over the answer as it is
 	height int64
 	ok     bool
 	vb     [][]byte
@@ -219,13 +221,29 @@ type valsAbs struct {
 	set    []byte
 }
 
+// rawValidatorSet decodes a validator set answer without any normalisation.
+func rawValidatorSet(meta []byte) *cmttypes.ValidatorSet {
+	var pvs cmtproto.ValidatorSet
+	if err := pvs.Unmarshal(meta); err != nil {
+		return nil
+	}
+	vs, err := cmttypes.ValidatorSetFromProto(&pvs)
+	if err != nil {
+		return nil
+	}
+	return vs
+}
+
 func absValidators(v *consensus.Validators) valsAbs {
 	a := valsAbs{height: v.Height}
-	vs, err := light.DecodeValidators(v)
-	if err != nil {
+	// decoded by the harness itself with CometBFT's own decoder, entries in the order of the
+	// bytes -- NOT with light.DecodeValidators, which is part of the code under test
+	vs := rawValidatorSet(v.Meta)
+	if vs == nil {
 		return a
 	}
 	a.ok = true
+	a.hash = vs.Hash()
 	for _, val := range vs.Validators {
 		a.vb = append(a.vb, val.Bytes())
 		pp := make([]byte, 8)
@@ -481,7 +499,9 @@ func runB(c BCase) (res bresult) {
 		if err == nil {
 			accept = true
 			h := absValidators(c.Honest.Validators)
-			if a.height != h.height || !eqLists(a.vb, h.vb) {
+			if !bytes.Equal(a.hash, lb.NextValidatorsHash) {
+				bad("verifyNextValidators accepted an answer whose own validator set hash (entries in the order of the answer's bytes) is not NextValidatorsHash of the verified header")
+			} else if a.height != h.height || !eqLists(a.vb, h.vb) {
 				bad("verifyNextValidators accepted a validator set whose (key, power) list or height differ from the honest response")
 			} else {
 				if !eqLists(a.rest, h.rest) {
@@ -1024,6 +1044,27 @@ func genBCases(r *prng.R, tp *tuple) []BCase {
 		if n >= 2 {
 			modv("validators-swapped", func(p *cmtproto.ValidatorSet) {
 				p.Validators[0], p.Validators[n-1] = p.Validators[n-1], p.Validators[0]
+			})
+			modv("validators-adjacent-swapped", func(p *cmtproto.ValidatorSet) {
+				j := r.Intn(n - 1)
+				p.Validators[j], p.Validators[j+1] = p.Validators[j+1], p.Validators[j]
+			})
+			modv("validators-reversed", func(p *cmtproto.ValidatorSet) {
+				for i, j := 0, n-1; i < j; i, j = i+1, j-1 {
+					p.Validators[i], p.Validators[j] = p.Validators[j], p.Validators[i]
+				}
+			})
+			modv("validators-rotated", func(p *cmtproto.ValidatorSet) {
+				p.Validators = append(p.Validators[1:], p.Validators[0])
+			})
+			modv("validator-power-moved-same-total", func(p *cmtproto.ValidatorSet) {
+				a, c := *p.Validators[0], *p.Validators[n-1]
+				a.VotingPower++
+				c.VotingPower--
+				p.Validators[0], p.Validators[n-1] = &a, &c
+			})
+			modv("validators-sorted-by-address", func(p *cmtproto.ValidatorSet) {
+				sort.Slice(p.Validators, func(i, j int) bool { return bytes.Compare(p.Validators[i].Address, p.Validators[j].Address) < 0 })
 			})
 		}
 		modv("validator-priority+1", func(p *cmtproto.ValidatorSet) {
